@@ -1,17 +1,20 @@
 /-
-A concrete 4-key program and history used by the non-vacuity examples of C01 / C03.
+Concrete programs and histories used by the non-vacuity examples of C01 / C03: a 4-key program of
+inputs and normal keys (`exP`), and a 4-key program with an external key and an unordered read
+group (`exQ`).
 -/
 import QbiceVerif.Lemmas.EngineCore6
 namespace Qbice.Core
 
 /-- keys 0, 1: inputs; key 2 reads 0 and, only if it is 1, reads 1; key 3 reads 2 -/
 def exP : Program :=
-  [ ⟨true, .ret 0⟩, ⟨true, .ret 0⟩,
-    ⟨false, .ask 0 fun a => if a = 1 then .ask 1 (fun b => .ret (b + 10)) else .ret 0⟩,
-    ⟨false, .ask 2 fun c => .ret (c * 2)⟩ ]
+  [ { kind := .input, prog := .ret 0 }, { kind := .input, prog := .ret 0 },
+    { kind := .normal, prog := .ask 0 fun a => if a = 1 then .ask 1 (fun b => .ret (b + 10)) else .ret 0 },
+    { kind := .normal, prog := .ask 2 fun c => .ret (c * 2) } ]
 
 def exOps : List Op :=
-  [ .sess [(0, 1), (1, 5)], .round [3, 2], .sess [(0, 0), (1, 5)], .round [3], .sess [(0, 1)], .round [3, 3] ]
+  [ .sess [.set 0 1, .set 1 5], .round [3, 2], .sess [.set 0 0, .set 1 5], .round [3],
+    .sess [.set 0 1], .round [3, 3] ]
 
 theorem exP_wf : WF exP := by
   intro k d h hi
@@ -42,12 +45,56 @@ theorem stateAfter_inv {p : Program} (wf : WF p) (ops : List Op) : Inv p (stateA
   | ok r => rw [hr] at h; exact h.2
 
 /-- after the first session and a round that verified keys 3 and 2 -/
-def exT : St := stateAfter exP [.sess [(0, 1), (1, 5)], .round [3, 2]]
+def exT : St := stateAfter exP [.sess [.set 0 1, .set 1 5], .round [3, 2]]
 
 /-- … and after a second session that changed input 0 -/
-def exS : St := stateAfter exP [.sess [(0, 1), (1, 5)], .round [3, 2], .sess [(0, 0), (1, 5)]]
+def exS : St := stateAfter exP [.sess [.set 0 1, .set 1 5], .round [3, 2], .sess [.set 0 0, .set 1 5]]
 
 theorem exT_inv : Inv exP exT := stateAfter_inv exP_wf _
 theorem exS_inv : Inv exP exS := stateAfter_inv exP_wf _
+
+-- ------------------------------------------------------------------ external key, unordered group
+
+/-- key 0: input; key 1: external, its executor returns world cell 1; key 2 reads 0 and 1 in one
+    unordered group and adds them; key 3 reads 2 -/
+def exQ : Program :=
+  [ { kind := .input, prog := .ret 0 },
+    { kind := .external, prog := .ret 0, ext := fun w => w 1 },
+    { kind := .normal, prog := .askAll [0, 1] fun vs => .ret (vs.foldl (· + ·) 0) },
+    { kind := .normal, prog := .ask 2 fun c => .ret (c * 2) } ]
+
+/-- the world cell changes twice: the first time without a refresh (nothing moves), the second
+    session refreshes -/
+def exQOps : List Op :=
+  [ .sess [.world 1 7, .set 0 1], .round [3], .sess [.world 1 9], .round [3, 1],
+    .sess [.refresh], .round [3], .sess [.world 1 9, .refresh], .round [3] ]
+
+theorem exQ_wf : WF exQ := by
+  intro k d h hi
+  match k, h with
+  | 0, h => simp [exQ] at h; subst h; simp at hi
+  | 1, h => simp [exQ] at h; subst h; simp at hi
+  | 2, h =>
+    simp [exQ] at h; subst h
+    simp only [Prog.Below]
+    refine ⟨fun d hd => ?_, fun _ => trivial⟩
+    simp at hd; rcases hd with rfl | rfl <;> decide
+  | 3, h =>
+    simp [exQ] at h; subst h
+    simp [Prog.Below]
+  | n + 4, h => simp [exQ] at h
+
+/-- after the first session and round: external key 1 is pinned at 7 -/
+def exU : St := stateAfter exQ [.sess [.world 1 7, .set 0 1], .round [3]]
+
+/-- … and after the world cell changed without a refresh -/
+def exV : St := stateAfter exQ [.sess [.world 1 7, .set 0 1], .round [3], .sess [.world 1 9]]
+
+/-- … and after a refresh (external key 1 re-pinned at 9, the edge from key 2 dirty) -/
+def exW : St := stateAfter exQ [.sess [.world 1 7, .set 0 1], .round [3], .sess [.world 1 9], .sess [.refresh]]
+
+theorem exU_inv : Inv exQ exU := stateAfter_inv exQ_wf _
+theorem exV_inv : Inv exQ exV := stateAfter_inv exQ_wf _
+theorem exW_inv : Inv exQ exW := stateAfter_inv exQ_wf _
 
 end Qbice.Core
